@@ -262,6 +262,11 @@ func (b *Builder) fill(t *rapid.T, v reflect.Value, depth int) {
 			v.Set(reflect.ValueOf([]byte{}))
 			return
 		}
+		if b.Class == Core {
+			// core byte strings are text-safe: raw bytes in a header or path are hostile values
+			v.Set(reflect.ValueOf([]byte(rapid.StringMatching(`[a-z0-9]{1,8}`).Draw(t, "corebytes"))))
+			return
+		}
 		v.Set(reflect.ValueOf(rapid.SliceOfN(rapid.Byte(), 0, 8).Draw(t, "bytes")))
 		return
 	}
